@@ -125,7 +125,19 @@ pub fn run_history(
         if visit_here {
             let n = Node { family, root_fen: &root_fen, moves: &moves, model: &model, real: &real, legal: &legal, focus };
             c.journal(&format!("node {} {} [{}]", family, root_fen, moves_str(&moves)));
-            o.node(c, &n, rng);
+            // a panic inside a monitored call (debug assertion, overflow check, arrayvec capacity
+            // assert ...) is a finding about the code under test; keep the shard going
+            let r = std::panic::catch_unwind(std::panic::AssertUnwindSafe(|| o.node(c, &n, rng)));
+            if let Err(p) = r {
+                let msg = p.downcast_ref::<String>().cloned().or(p.downcast_ref::<&str>().map(|s| s.to_string())).unwrap_or_else(|| "panic".into());
+                let short: String = msg.chars().take(120).collect();
+                c.violation(
+                    "monitored-call-panicked",
+                    &short,
+                    format!("{} [{}]: a call on this position panicked: {msg}", n.model.to_fen(), moves_str(&moves)),
+                    n.replay(),
+                );
+            }
         }
         if last {
             break;
